@@ -6,7 +6,7 @@
    Labels: FULL = closed theorem about the reference for all inputs; ORACLE = the claim "libpoly's chain = reference"
    is a Definition (…_full_statement), validated by the three-way correspondence only. *)
 From Coq Require Import ZArith List.
-From LP Require Import UPoly MPoly Sylvester Subres SylvesterEval.
+From LP Require Import UPoly MPoly Scalar Sylvester Subres SylvesterEval.
 Set Warnings "-notation-overridden,-ambiguous-paths".
 From mathcomp Require Import all_ssreflect all_fingroup all_algebra.
 From mathcomp Require Import ssrZ zify.
@@ -117,6 +117,48 @@ Theorem C04_subres_specialises : forall (rho : var -> Z) (k : nat) (p q : seq mp
 Proof. exact subres_spec. Qed.
 Print Assumptions C04_subres_specialises.
 
+(* ---- 4b. other coefficient rings (libpoly contexts over Z_p): every reference determinant commutes with every ring
+   morphism out of Z; reduction modulo a prime is one *)
+
+(* FULL: for every commutative ring R and ring morphism f : Z -> R, the image of any reference determinant (resultant,
+   psc_k, coefficients of S_k) is the same determinant over R of the images of the operands (formal degrees kept) *)
+Theorem C04_ring_morphism_commutes : forall (R : comRingType) (f : {rmorphism Z -> R}) (k j : nat) (p q : seq Z),
+  f (sylv_det Z 0 1 Z.add Z.opp Z.mul z_is_zero k j p q) =
+  sylv_det R 0 1 +%R -%R *%R (fun _ => false) k j (map f p) (map f q).
+Proof. exact sylv_det_Z_morph. Qed.
+Print Assumptions C04_ring_morphism_commutes.
+
+Theorem C04_ring_morphism_commutes_mpoly :
+  forall (R : comRingType) (f : {rmorphism Z -> R}) (rho : var -> Z) (k j : nat) (p q : seq mpoly),
+  f (mp_eval rho (sylv_det mpoly [::] mp_one mp_add mp_neg mp_mul mp_is_zero k j p q)) =
+  sylv_det R 0 1 +%R -%R *%R (fun _ => false) k j (map (f \o mp_eval rho) p) (map (f \o mp_eval rho) q).
+Proof. exact sylv_det_mp_morph. Qed.
+Print Assumptions C04_ring_morphism_commutes_mpoly.
+
+(* FULL: when the images of both leading coefficients are non-zero, the image of the reference resultant is (up to the
+   convention sign) MathComp's resultant over R of the image polynomials *)
+Theorem C04_ref_is_sylvester_morphism : forall (R : comRingType) (f : {rmorphism Z -> R}) (p q : seq Z),
+  last 1 (map f p) != 0 -> last 1 (map f q) != 0 ->
+  f (resultant_Z p q) = (-1) ^+ ((size p).-1 * (size q).-1) * resultant (Poly (map f p)) (Poly (map f q)).
+Proof. exact resultant_Z_morph. Qed.
+Print Assumptions C04_ref_is_sylvester_morphism.
+
+(* FULL, Z_p (what the srp correspondence relies on): for a prime p, operands reduced into the symmetric range of Z_p
+   first, then any reference determinant over Z, read in Z_p = the Sylvester determinant over Z_p of the operands *)
+Theorem C04_reduction_mod_p : forall (p k j : nat) (P Q : seq Z), prime p ->
+  let red := ring_norm (Some (Z.of_nat p)) in
+  to_Fp p (sylv_det Z 0 1 Z.add Z.opp Z.mul z_is_zero k j (map red P) (map red Q)) =
+  sylv_det 'F_p 0 1 +%R -%R *%R (fun _ => false) k j (map (to_Fp p) P) (map (to_Fp p) Q).
+Proof. exact sylv_det_Z_mod_p. Qed.
+Print Assumptions C04_reduction_mod_p.
+
+Theorem C04_reduction_mod_p_mpoly : forall (p : nat) (rho : var -> Z) (k j : nat) (P Q : seq mpoly), prime p ->
+  let red := mp_map_coeff (ring_norm (Some (Z.of_nat p))) in
+  to_Fp p (mp_eval rho (sylv_det mpoly [::] mp_one mp_add mp_neg mp_mul mp_is_zero k j (map red P) (map red Q))) =
+  to_Fp p (mp_eval rho (sylv_det mpoly [::] mp_one mp_add mp_neg mp_mul mp_is_zero k j P Q)).
+Proof. exact sylv_det_mp_mod_p. Qed.
+Print Assumptions C04_reduction_mod_p_mpoly.
+
 (* FULL: a vanishing (formal) leading coefficient of the first operand is expanded away *)
 Theorem C04_vanishing_lc_step : forall p q : seq Z, (0 < size p)%N ->
   resultant_Z (rcons p 0) q = (-1) ^+ (size q).-1 * nth 0 q (size q).-1 * resultant_Z p q.
@@ -198,4 +240,8 @@ Example C04_ex_swap_branch :
   let A := map mp_const [:: 3; 2]%coqZ in let B := map mp_const [:: 1; 1; 0; 1]%coqZ in
   (cp_deg A < cp_deg B)%N /\ sr_lp_resultant 50 B A = SrOk [:: mp_const 31%coqZ]
   /\ resultant_mp B A = mp_const 31%coqZ /\ sr_lp_resultant 50 A B = SrOk [:: mp_const (-31)%coqZ].
+Proof. by vm_compute. Qed.
+(* Z_p: 7 is prime; the seeded example x^3+2x^2+yx+3, 2x^2+x+y at y = 1: integer resultant 43 = 1 in Z_7 *)
+Example C04_ex_mod_p : prime 7 /\ resultant_Z [:: 3; 1; 2; 1]%coqZ [:: 1; 1; 2]%coqZ = 43%coqZ
+  /\ ring_norm (Some 7%coqZ) 43%coqZ = 1%coqZ.
 Proof. by vm_compute. Qed.
